@@ -228,6 +228,57 @@ fn hand_specs() -> Vec<Spec> {
         b.p(c, "( Row )");
         v.push(b.done());
     }
+    {
+        // recovery productions that are themselves fallible, at two levels, plus an LALR-merge shape
+        let mut b = B::new("recfal");
+        let p = b.nt("Unitr", true, false);
+        let st = b.nt("Str", false, false);
+        let e = b.nt("Er", false, false);
+        b.p(p, "Str");
+        b.p(p, "Unitr Str ?");
+        b.p(st, "id = Er ;");
+        b.p(st, "! ; ?");
+        b.p(st, "{ Unitr }");
+        b.p(st, "{ ! } ?");
+        b.p(e, "n ?");
+        b.p(e, "( Er )");
+        b.p(e, "Er + n");
+        v.push(b.done());
+    }
+    {
+        // two different inlined fallible nonterminals in one production, fallible outer action
+        let mut b = B::new("inl2");
+        let s = b.nt("Pairs", true, false);
+        let pr = b.nt("Pair", false, false);
+        let i1 = b.nt("Lo", false, true);
+        let i2 = b.nt("Hi", false, true);
+        b.p(i1, "a ?");
+        b.p(i1, "b ?");
+        b.p(i2, "c ?");
+        b.p(i2, "d");
+        b.p(pr, "Lo = Hi ?");
+        b.p(pr, "Lo , Lo , Hi");
+        b.p(pr, "( Pair )");
+        b.p(s, "Pair");
+        b.p(s, "Pairs ; Pair ?");
+        v.push(b.done());
+    }
+    {
+        // nullable nonterminals in the middle and at both ends
+        let mut b = B::new("nullable");
+        let s = b.nt("Decl", true, false);
+        let m = b.nt("Mods", false, false);
+        let o = b.nt("OptTy", false, false);
+        let t = b.nt("Trail", false, false);
+        b.p(s, "Mods id OptTy Trail ?");
+        b.p(m, "");
+        b.p(m, "Mods q");
+        b.p(o, "");
+        b.p(o, "= n ?");
+        b.p(t, "");
+        b.p(t, "; Trail");
+        v.push(b.done());
+    }
     v
 }
 
@@ -296,7 +347,7 @@ fn generated_specs(count: usize) -> Vec<Spec> {
 
 pub fn all_specs() -> Vec<Spec> {
     let mut v = hand_specs();
-    v.extend(generated_specs(10));
+    v.extend(generated_specs(16));
     v
 }
 
